@@ -332,9 +332,77 @@ def rule_rtwords(facts):
     return r
 
 
+def rule_precchk(facts):
+    """A DECIMAL(p, s) value has at most p digits. The cast kernels that produce decimals by arithmetic (integer / float / decimal
+    sources) therefore write a value only on the accepting branch of `validate_precision` for the target precision; the text source
+    goes through DecimalParser, where the comparison with the precision has to come after the last operation that changes the value."""
+    r = RuleResult("C13-PRECCHK", "decimal-producing cast kernels write a value only behind validate_precision; the text parser compares with the precision "
+                   "after the value's last update", floor=4)
+    for rec in facts.fns_matching(lambda i: "cast::builtin::to_decimal::" in i and "::tests::" not in i and "::cast::{closure" in i):
+        fn = Fn(rec)
+        puts = [c for c in fn.calls() if "PutBuffer" in c.name and c.name.endswith("::put")]
+        if not puts:
+            continue
+        r.functions.add(fn.id)
+        if "Utf8ToDecimal" in rec["id"]:
+            continue
+        vals = [c for c in fn.calls() if c.name.endswith("::validate_precision") or c.decl.endswith("::validate_precision")]
+        for p_ in puts:
+            r.call_sites += 1
+            ok = False
+            for v in vals:
+                if v.target is None:
+                    continue
+                # the verdict is branched on and the put lies only on one side
+                region_ok = False
+                for b in fn.reachable_from(v.target):
+                    t = fn.term(b)
+                    if t[0] == "switch" and fn.dominates(v.bb, b) and fn.dominates(b, p_.bb) and b != p_.bb:
+                        sides = [tg for _v, tg in switch_edges(t) if p_.bb in fn.reachable_from(tg, avoid=[b])]
+                        if len(sides) == 1:
+                            region_ok = True
+                ok = ok or region_ok
+            r.inst({"fn": fn.id, "put_line": p_.line, "behind_validate_precision": ok}, ok)
+            if not ok:
+                r.violate(fn.id, "put-without-precision-check", f"the decimal written at line {p_.line} is not behind validate_precision for the target type: a value with more digits than the "
+                          "declared precision is stored under that type", rec["file"], p_.line)
+    # text → decimal
+    recs = facts.fns_matching(lambda i: "cast::parse::DecimalParser<T> as" in i and i.endswith("::parse"))
+    if not recs:
+        r.missing_anchor("DecimalParser::parse")
+        return r
+    fn = Fn(recs[0])
+    r.functions.add(fn.id)
+    cmp_blocks = []
+    for b, i, pl, rv, ln in fn.assigns():
+        if rv[0] == "bin" and rv[1] in ("Gt", "Ge", "Lt", "Le"):
+            for x in (rv[2], rv[3]):
+                if x[0] in ("c", "m"):
+                    o = fn.origin(x, at=b)
+                    if any(isinstance(p_, list) and p_[0] == "f" and p_[1] == "precision" for p_ in (o[2] if len(o) > 2 and isinstance(o[2], list) else [])):
+                        cmp_blocks.append((b, ln))
+    if not cmp_blocks:
+        r.inst({"fn": fn.id, "precision_compared": False}, False)
+        r.violate(fn.id, "no-precision-comparison", "DecimalParser::parse never compares with self.precision", recs[0]["file"], recs[0]["line"])
+        return r
+    # value-changing operations on the accumulator that can still run after the (last) precision comparison
+    b_last, ln_last = max(cmp_blocks, key=lambda x: x[1])
+    after = fn.reachable_from(b_last)
+    late = [c for c in fn.calls() if c.bb in after and c.bb != b_last and re.search(r"checked_(mul|add|div)$", c.name)
+            and not any(fn.dominates(c.bb, b_last) for _ in [0])]
+    # exclude operations that are part of negating the final value (checked_sub) and digit counting loops before the comparison
+    late = [c for c in late if b_last not in fn.reachable_from(c.bb)]
+    ok = not late
+    r.inst({"fn": fn.id, "precision_comparison_line": ln_last, "value_updates_after_it": [c.line for c in late]}, ok)
+    if not ok:
+        r.violate(fn.id, "precision-checked-before-scaling", f"the value is still multiplied / extended at line(s) {sorted({c.line for c in late})} after the comparison with the precision "
+                  f"(line {ln_last}): padding to the target scale can push it past the declared precision ('123'::DECIMAL(4,2) = 123.00)", recs[0]["file"], ln_last)
+    return r
+
+
 def run(ctx):
     facts = ctx["facts"]
-    return [rule_flat(facts), rule_tab(facts), rule_narrow(facts), rule_qsign(facts), rule_rtwords(facts)]
+    return [rule_flat(facts), rule_tab(facts), rule_narrow(facts), rule_qsign(facts), rule_rtwords(facts), rule_precchk(facts)]
 
 
 CLAIM = {
